@@ -5,7 +5,7 @@
 From LC Require Import Lib.Bytes Model.StageList Proofs.StageListP Proofs.StagePathP Proofs.StagePipeP
   Proofs.StageContentP Proofs.StageContentsFmtP Proofs.C06TopP Proofs.C06P Proofs.C06Example Cases.C06.
 
-(* the property predicate (all eleven conjuncts of Cases/C06.v [spec_ok], evaluated by the check on
+(* the property predicate (all conjuncts of Cases/C06.v [spec_ok], evaluated by the check on
    what the stagemaker binary wrote) holds of the model for every well-formed input: every build-root
    tree, package database, selection, add-files script and switch combination *)
 Theorem C06_holds : forall c, C06.wf c = true -> C06.kf c = 0%N -> C06.spec c (C06.model c) = true.
@@ -39,6 +39,27 @@ Theorem C06_hardlink_wellformed : forall i ms, stage_list i = Ok ms ->
               /\ lstat (i_tree i) (m_name y) = Some (NFile (Some g)).
 Proof. exact hardlink_wellformed. Qed.
 Print Assumptions C06_hardlink_wellformed.
+
+(* ... and an entry whose contents come from a src= file (inside or outside the build root, of any
+   link count) is a regular-file member of its own name: not a hard link, and no hard link refers
+   to it -- unless a later line names the path again *)
+Theorem C06_src_entry_regular : forall i ms, stage_list i = Ok ms ->
+  forall pre li s post, user_script i = pre ++ OAdd li :: post -> li_src li = Some s ->
+  omits_none post (li_name li) -> ~ ops_name (i_tree i) post (li_name li) ->
+  (exists x, In x ms /\ m_name x = li_name li) /\
+  forall x, In x ms -> (m_name x = li_name li -> m_kind x = KReg) /\ (m_kind x = KLink -> m_link x <> li_name li).
+Proof. exact src_entry_regular. Qed.
+Print Assumptions C06_src_entry_regular.
+Example C06_src_example :
+  map parse_line [bs "file /etc/motd src=$$stageroot/usr/share/skel/motd mod=0600"; bs "file /etc/vimrc src=/etc/vim/vimrc";
+                  bs "file /etc/x src=/a src=/b"; bs "file /etc/* src=/a"; bs "symlink /etc/l src=/a"]
+  = [OAdd (MkLI TFile (bs "/etc/motd") false false false false (Some (SRoot (bs "/usr/share/skel/motd"))));
+     OAdd (MkLI TFile (bs "/etc/vimrc") false false false false (Some (SAbs (bs "/etc/vim/vimrc") None)));
+     OErr; OErr; OErr]
+  /\ resolve_op [(bs "/etc/vim/vimrc", NFile (Some 3))]
+       (OAdd (MkLI TFile (bs "/etc/vimrc") false false false false (Some (SAbs (bs "/etc/vim/vimrc") None))))
+     = OAdd (MkLI TFile (bs "/etc/vimrc") false false false false (Some (SAbs (bs "/etc/vim/vimrc") (Some (NFile (Some 3)))))).
+Proof. exact src_parse_facts. Qed.
 
 (* omit lines, plain or wildcard, remove the matching members *)
 Theorem C06_omit_removes : forall i mf, good_input i -> stage_map i = Ok mf ->
